@@ -2,6 +2,7 @@ package main
 
 import (
 	"fmt"
+	"go/token"
 	"go/types"
 	"sort"
 	"strings"
@@ -16,7 +17,7 @@ func init() {
 			"R2 silent skips are documented noise — an optional token consumed under a kind guard whose branch leaves no trace (no store, no differing phi at the merge point) must be one of the canonicalisations the property lists: INNER, OUTER, INTO, FROM after DELETE, an optional/trailing comma. " +
 			"R3 optional-position flags — a token.Pos field that is InvalidPos on some paths and a real position on others, where no other printed field is definitely different between the two cases, must be read by SQL(). " +
 			"C01/R2 (required tokens are printed) is shared. Does not decide: order of the printed pieces, survival of literal values through re-quoting (C15).",
-		Rules: []ruleFn{ruleC02R1, ruleC02R2, ruleC02R3, ruleC01R2, ruleC02R4, ruleC01R6, ruleC07R2, ruleC07R4, ruleC15R1},
+		Rules: []ruleFn{ruleC02R1, ruleC02R2, ruleC02R3, ruleC01R2, ruleC02R4, ruleC01R6, ruleC07R2, ruleC07R4, ruleC15R1, ruleC02R5},
 	})
 }
 
@@ -692,5 +693,123 @@ func ruleC02R4(w *World, r *Report) {
 		} else {
 			r.bad(rule, construct, w.pos(si.al.Pos()), fmt.Sprintf("%d fields are copied from a node of the same type but %v are not set: whatever the source node carried there is dropped from the tree and from SQL()", n, missing))
 		}
+	}
+}
+
+// ruleC02R5: a node that is extended instead of rebuilt. Where a production either allocates a node T{F: v, …, L: {a, b}}
+// or, when the node it already holds is a T, appends to its list L (the set-operator chain of parseQueryExpr), the
+// values v parsed in this round are stored nowhere on the append path: the tokens they stand for survive in SQL() only
+// if they equal what the node already holds. The append must therefore be reachable only through `c.F == v`.
+func ruleC02R5(w *World, r *Report) {
+	const rule = "C02/R5"
+	r.rule(rule, "where a production extends a node it already holds (c, ok := x.(*T); c.L = append(c.L, …)) instead of allocating T{F: v, L: …} as its sibling path does, every value v parsed in that round and stored only by the allocating path is compared with c.F, and the append is unreachable from the unequal side of that comparison (it raises): otherwise the second UNION/INTERSECT/EXCEPT, ALL/DISTINCT of a chain is silently replaced by the first", 2)
+	w.NoReturn()
+	cat := w.Catalog()
+	n := 0
+	for _, fn := range w.ModFns {
+		if fnPkgPath(fn) != modRoot || fn.Blocks == nil {
+			continue
+		}
+		for _, b := range fn.Blocks {
+			for _, in := range b.Instrs {
+				st, ok := in.(*ssa.Store)
+				if !ok {
+					continue
+				}
+				fa, ok := st.Addr.(*ssa.FieldAddr)
+				if !ok {
+					continue
+				}
+				ex, ok := fa.X.(*ssa.Extract)
+				if !ok || ex.Index != 0 {
+					continue
+				}
+				ta, ok := ex.Tuple.(*ssa.TypeAssert)
+				if !ok || !ta.CommaOk {
+					continue
+				}
+				named := namedOf(ta.AssertedType)
+				if named == nil || cat.ByName[named.Obj().Name()] == nil {
+					continue
+				}
+				call, ok := st.Val.(*ssa.Call)
+				if !ok {
+					continue
+				}
+				if bi, ok := call.Call.Value.(*ssa.Builtin); !ok || bi.Name() != "append" {
+					continue
+				}
+				listField := fieldAddrName(fa)
+				tname := named.Obj().Name()
+				// the sibling allocation of the same type in this function
+				var sib *ssa.Alloc
+				for _, bb := range fn.Blocks {
+					for _, x := range bb.Instrs {
+						if al, ok := x.(*ssa.Alloc); ok {
+							if nn := namedOf(al.Type()); nn != nil && nn.Obj() == named.Obj() {
+								sib = al
+							}
+						}
+					}
+				}
+				if sib == nil {
+					continue
+				}
+				for f, v := range allocFieldStores(sib) {
+					if f == listField {
+						continue
+					}
+					if _, isC := v.(*ssa.Const); isC {
+						continue
+					}
+					if cat.isPos(v.Type()) {
+						continue
+					}
+					n++
+					construct := fmt.Sprintf("%s: %s.%s of the node that is extended", funcName(fn), tname, f)
+					// the comparison of c.F with v
+					var cmp *ssa.If
+					var unequal *ssa.BasicBlock
+					for _, bb := range fn.Blocks {
+						iff, ok := bb.Instrs[len(bb.Instrs)-1].(*ssa.If)
+						if !ok {
+							continue
+						}
+						bo, ok := iff.Cond.(*ssa.BinOp)
+						if !ok || (bo.Op != token.EQL && bo.Op != token.NEQ) {
+							continue
+						}
+						for _, side := range [][2]ssa.Value{{bo.X, bo.Y}, {bo.Y, bo.X}} {
+							if side[1] != v {
+								continue
+							}
+							if addr, ok := isLoad(side[0]); ok {
+								if cfa, ok := addr.(*ssa.FieldAddr); ok && cfa.X == ssa.Value(ex) && fieldAddrName(cfa) == f {
+									cmp = iff
+									if bo.Op == token.EQL {
+										unequal = bb.Succs[1]
+									} else {
+										unequal = bb.Succs[0]
+									}
+								}
+							}
+						}
+					}
+					switch {
+					case cmp == nil:
+						r.bad(rule, construct, w.pos(st.Pos()), fmt.Sprintf("the value parsed for %s in this round is not compared with the %s the node already holds before %s is appended to: it is dropped without a trace", f, f, listField))
+					case w.pathAvoiding(ta.Block(), b, func(x ssa.Instruction) bool { return x == cmp.Block().Instrs[0] }):
+						r.bad(rule, construct, w.pos(st.Pos()), "the comparison with the value parsed in this round does not lie on every path to the append")
+					case unequal == b || w.pathAvoiding(unequal, b, func(ssa.Instruction) bool { return false }):
+						r.bad(rule, construct, w.pos(lastPos(cmp.Block())), fmt.Sprintf("the append to %s is reachable from the side on which %s differs from the value parsed in this round (the guard raises only when other parts differ as well): the chain keeps the first %s and SQL() prints it for every element", listField, f, f))
+					default:
+						r.ok(rule, construct, w.pos(lastPos(cmp.Block())), "compared with the value parsed in this round; the unequal side raises")
+					}
+				}
+			}
+		}
+	}
+	if n == 0 {
+		r.errorf("no extend-or-allocate production found (the set-operator chain of parseQueryExpr expected)")
 	}
 }
